@@ -179,6 +179,9 @@ Definition load_chunk (record_len : N) (s : lstate) : option err * lstate :=
           | Panic _ | Exit _ | OutOfFuel => (Some EOther, s)
           | Ok s =>
             let '(data, e, r1) := rd_full usize chunk_rdr in
+            (* uncompressed and caller-supplied (pass-through) readers pull lazily from the limited
+               reader: validation consumes only the bytes it read, not the whole records region *)
+            let lazy := bytes_eqb comp [] || mem_bytes comp (lo_custom lo) in
             let s := s <| lx_chunk := Some r1 |> in
             match e with
             | Some e => (Some e, s)
@@ -197,7 +200,13 @@ Definition load_chunk (record_len : N) (s : lstate) : option err * lstate :=
               | Some e => (Some e, s)
               | None =>
                 if (0 <? ucrc) && negb (crc32 data =? ucrc) then (Some EInvalidChunkCrc, s)
-                else (None, s <| lx_chunk := Some {| r_buf := data; r_end := None; r_seek := true |} |>)
+                else
+                  (* success: the reader becomes the in-memory buffer and what is left of the limited
+                     reader is abandoned.  Uncompressed and pass-through (caller-supplied) readers pull
+                     lazily, so the base reader has only advanced by the bytes validation read. *)
+                  let s := if lazy then s <| lx_base := {| r_buf := drop (blen data) (r_buf b); r_end := r_end b; r_seek := r_seek b |} |>
+                           else s in
+                  (None, s <| lx_chunk := Some {| r_buf := data; r_end := None; r_seek := true |} |>)
               end
             end
           end
